@@ -108,6 +108,8 @@ pub enum RK {
     Post,
     /// `web::route().to(h)` / `Resource::to(h)`
     Any,
+    /// `web::route().guard(Header("x-g", "1")).to(h)`: a route selected by a non-method guard only
+    Hdr,
 }
 
 /// Route-list menu.
@@ -119,6 +121,7 @@ pub fn rs_all() -> Vec<Vec<RK>> {
         vec![RK::Get, RK::Post],
         vec![RK::Get, RK::Any],
         vec![RK::Any, RK::Get],
+        vec![RK::Hdr],
     ]
 }
 
@@ -175,7 +178,7 @@ impl Table {
     pub fn uses_guard(&self, g: G) -> bool {
         fn u(s: &Svc, g: G) -> bool {
             match s {
-                Svc::Res(r) => r.guard == g,
+                Svc::Res(r) => r.guard == g || (g == G::Hdr && r.routes.contains(&RK::Hdr)),
                 Svc::Scope(sc) => sc.guard == g || sc.services.iter().any(|s| u(s, g)),
             }
         }
@@ -218,6 +221,7 @@ impl Table {
                             RK::Get => ".get(h)",
                             RK::Post => ".post(h)",
                             RK::Any => ".to(h)",
+                            RK::Hdr => ".route(Header(x-g,1))",
                         });
                     }
                     out.push(')');
